@@ -1,5 +1,8 @@
 """C04 stress stage: PARALLEL join drivers vs. the sequential drivers on large key sets (real code),
-justified by C04_parallel_schedules; under the race detector in the thorough tier."""
+justified by C04_parallel_schedules; under the race detector in the thorough tier.
+Second stage (C04 only), `vharness aux c04nested`: the PARALLEL nested loop (non-equi ON, PARALLEL STRAIGHT_JOIN) with
+large batches per left key, each query repeated by concurrent callers with GOMAXPROCS above the core count, so that a
+hand-over of a batch that is only correct under a lucky schedule shows as lost / extra rows within the time budget."""
 import json, os
 
 
@@ -37,7 +40,44 @@ def stress(ctx):
     return res
 
 
+def nested(ctx):
+    """second driver: the PARALLEL nested loop (non-equi ON / PARALLEL STRAIGHT_JOIN) with large batches per left key,
+    many duplicates per key, the same query repeated by several callers at once with GOMAXPROCS above the core count"""
+    res = {"name": "parallel-nested-loop-stress", "ok": False, "violations": [], "coverage": {}}
+    exe = ctx["exe"]
+    env = dict(ctx["goenv"])
+    if ctx["tier"] == "thorough":
+        rexe, out = ctx["build_harness"](race=True)
+        if rexe:
+            exe = rexe
+            env["GORACE"] = "halt_on_error=1"
+    d = os.path.join(ctx["rundir"], "c04nested")
+    rc, out = ctx["run"]([exe, "aux", "c04nested", "-tier", ctx["tier"], "-seed", str(ctx["seed"]), "-out", d],
+                         cwd=ctx["rundir"], env=env, timeout=3000)
+    path = os.path.join(d, "c04nested.json")
+    race = "WARNING: DATA RACE" in out or "fatal error" in out
+    if (rc != 0 or not os.path.exists(path)) and not race:
+        res["detail"] = "stress driver failed: " + out[-300:]
+        res["broken"] = "stage:parallel-nested-loop-stress did not complete: " + out[-200:].replace("\n", " ")
+        return res
+    m = json.load(open(path)) if os.path.exists(path) else {"runs": 0, "failures": [], "samples": []}
+    res["coverage"] = {"cases": m.get("runs", 0), "rounds": m.get("rounds"), "samples": m.get("samples"), "gomaxprocs": m.get("gomaxprocs"),
+                       "rule": "PARALLEL [LEFT|RIGHT] JOIN with a non-equi ON and PARALLEL STRAIGHT_JOIN (nested loop: one goroutine and one batch of hundreds to thousands of rows per left key; 20-350 left keys, 1-6 duplicates per key on either side), each query repeated by 4 concurrent callers on private copies of the document with GOMAXPROCS = 4 x cores; every result compared as a multiset with the sequential join of the same tables on the real code"}
+    fails = m.get("failures") or []
+    if race:
+        fails = fails + [{"sql": "(race detector report)", "detail": out[-1500:]}]
+    res["ok"] = not fails
+    res["detail"] = "%d of %d parallel nested-loop joins differ from the sequential result" % (len(fails), m.get("runs", 0))
+    for i, f in enumerate(fails[:3]):
+        p = os.path.join(ctx["root"], "replays", "%s-%s-%d-nested-%d.json" % (ctx["pid"], ctx["tier"], ctx["seed"], i))
+        json.dump({"property": ctx["pid"], "kind": "parallel nested-loop join differs from sequential join (schedule-dependent: rerun the driver)", "failure": f,
+                   "replay": "vharness aux c04nested -tier %s -seed %d -out <dir>" % (ctx["tier"], ctx["seed"])}, open(p, "w"), indent=1)
+        res["violations"].append((p, ""))
+    return res
+
+
 def install(CONFIG, EXTRA_TB, ASSUME):
     CONFIG.setdefault("C04", {}).setdefault("stages", []).append(stress)
+    CONFIG.setdefault("C04", {}).setdefault("stages", []).append(nested)
     # C13 (no cross-talk between the goroutines of one query): the same stress, keys handed to worker goroutines in batches
     CONFIG.setdefault("C13", {}).setdefault("stages", []).append(stress)
